@@ -63,7 +63,7 @@ def handleReport (line : String) : String :=
             | some _ => toString cut
             | none => "!"
           -- flags (the five-character prefix of an address line) belong to C15, everything else to C14
-          let maskFlags (h : String) : String := match unhex h with
+          let maskFlags (h : String) : String := match unhex (if h == "-" then "" else h) with
             | some bytes => String.join ((splitLines (bytes.map Char.ofNat)).map fun l =>
                 if (parseAddrLine l).isSome then String.ofList (l.drop 5) ++ "\n" else String.ofList l ++ "\n")
             | none => h
@@ -74,7 +74,7 @@ def handleReport (line : String) : String :=
           let v : List String :=
             if cutS == "!" then [s!"C15:cutoff-crash-or-diverge:p={prcnt}:n={n}"]
             else if outS == "!" then ["C14:report-crash-or-diverge"]
-            else match unhex outS with
+            else match unhex (if outS == "-" then "" else outS) with
               | none => ["C14:unreadable"]
               | some bytes =>
                 let lines := splitLines (bytes.map Char.ofNat)
